@@ -18,9 +18,12 @@
 #include "vf_float.hpp"
 
 #include <etl/cmath.hpp>
+#include <etl/limits.hpp>
 
 #include <algorithm>
 #include <cmath>
+#include <limits>
+#include <type_traits>
 #include <vector>
 
 #include "C16_common.hpp"
@@ -84,6 +87,14 @@ void precise_crumb(Ctx const& c, T x)
     fp::show(o, sizeof o, obs);
     fp::show(e, sizeof e, exp);
     precise_crumb(c, x);
+    vf::diverge(sym, o, e);
+}
+
+void report_plain(double obs, double exp, char const* sym)
+{
+    char o[96], e[96];
+    fp::show(o, sizeof o, obs);
+    fp::show(e, sizeof e, exp);
     vf::diverge(sym, o, e);
 }
 
@@ -239,6 +250,92 @@ char const* block_class(bool sign, unsigned e)
     return sign ? "-(>=2^63)" : ">=2^63";
 }
 
+
+// ---------------------------------------------------------------- extras: one enumerated case
+// (a) the floating-point constants of etl::numeric_limits<T> that the cmath/complex/midpoint code is built on,
+// (b) double unit only: the integral overloads (etl::f(Integer) -> double) against std::f(Integer).
+template <typename V>
+void limit_fact(char const* name, V obs, V exp)
+{
+    char op[64];
+    std::snprintf(op, sizeof op, "numeric_limits::%s", name);
+    vf::crumb("numeric_limits<" VF_T_NAME ">", op, "constant", "%s", name);
+    vf::cover(op, vf::fnv(op), true);
+    if constexpr (std::is_floating_point_v<V>) {
+        char const* sym = fp::exact_symptom(obs, exp, V(-123.25), false);
+        if (sym) {
+            char o[96], e[96];
+            fp::show(o, sizeof o, obs);
+            fp::show(e, sizeof e, exp);
+            vf::diverge(sym, o, e);
+        }
+    } else {
+        vf::eq_int("value", (long long)obs, (long long)exp);
+    }
+}
+#if !VF_T_IS_FLOAT
+int const kInts[] = {0, 1, -1, 2, -2, 3, 4, 5, 7, 10, -10, 16, 17, 100, 170, 171, 172, 709, 710, 1000, -1000, 65535, 16777217, -16777217,
+    2147483647, -2147483647 - 1};
+template <typename FE, typename FR>
+void int_overload(char const* name, bool approx, FE fe, FR fr)
+{
+    char subj[64], op[64];
+    std::snprintf(subj, sizeof subj, "%s<int>", name);
+    std::snprintf(op, sizeof op, "%s(int)", name);
+    for (int v : kInts) {
+        int volatile vv = v;
+        auto const r    = fr((int)vv);
+        char const* sit = v == 0 ? "n=0" : (v > 0 ? (v > 1000 ? "n-large" : "n>0") : (v < -1000 ? "-n-large" : "n<0"));
+        vf::crumb(subj, op, sit, "n=%d", v);
+        auto const g = fe((int)vv);
+        static_assert(std::is_same_v<decltype(g), decltype(r)>, "integral overload must return what std returns");
+        vf::cover(op, vf::mix((std::uint64_t)(unsigned)v, vf::fnv(op)), true);
+        if constexpr (std::is_floating_point_v<std::remove_cv_t<decltype(g)>>) {
+            if (approx) {
+                char buf[64];
+                std::uint64_t ulps = 0;
+                char const* sym    = fp::approx_symptom((double)g, (double)r, 4, &ulps, buf, sizeof buf);
+                if (sym) { report_plain((double)g, (double)r, sym); }
+            } else {
+                char const* sym = fp::exact_symptom((double)g, (double)r, (double)v, false);
+                if (sym) { report_plain((double)g, (double)r, sym); }
+            }
+        } else {
+            if (name[0] == 'l' && (name[1] == 'r' || name[2] == 'r')) { vf::eq_int("ret", (long long)g, (long long)r); }
+            else { vf::eq_bool("ret", (bool)g, (bool)r); }
+        }
+    }
+}
+#endif
+void extras()
+{
+    using EL = etl::numeric_limits<T>;
+    using SL = std::numeric_limits<T>;
+    limit_fact("min", EL::min(), SL::min());
+    limit_fact("max", EL::max(), SL::max());
+    limit_fact("lowest", EL::lowest(), SL::lowest());
+    limit_fact("epsilon", EL::epsilon(), SL::epsilon());
+    limit_fact("round_error", EL::round_error(), SL::round_error());
+    limit_fact("infinity", EL::infinity(), SL::infinity());
+    limit_fact("quiet_NaN", EL::quiet_NaN(), SL::quiet_NaN());
+    limit_fact("denorm_min", EL::denorm_min(), SL::denorm_min());
+    limit_fact("digits", EL::digits, SL::digits);
+    limit_fact("max_exponent", EL::max_exponent, SL::max_exponent);
+    limit_fact("min_exponent", EL::min_exponent, SL::min_exponent);
+    limit_fact("has_infinity", (int)EL::has_infinity, (int)SL::has_infinity);
+    limit_fact("has_quiet_NaN", (int)EL::has_quiet_NaN, (int)SL::has_quiet_NaN);
+    limit_fact("is_iec559", (int)EL::is_iec559, (int)SL::is_iec559);
+#if !VF_T_IS_FLOAT
+    #define IO(NAME, APPROX) int_overload(#NAME, APPROX, [](int n) { return etl::NAME(n); }, [](int n) { return std::NAME(n); });
+    IO(floor, false) IO(ceil, false) IO(trunc, false) IO(round, false) IO(rint, false) IO(lrint, false) IO(llrint, false)
+    IO(isnan, false) IO(isinf, false)
+    IO(sqrt, true) IO(exp, true) IO(log, true) IO(log2, true) IO(log10, true) IO(log1p, true) IO(sin, true) IO(cos, true) IO(tan, true)
+    IO(asin, true) IO(acos, true) IO(atan, true) IO(sinh, true) IO(cosh, true) IO(tanh, true) IO(asinh, true) IO(acosh, true)
+    IO(atanh, true) IO(erf, true) IO(tgamma, true) IO(lgamma, true)
+    #undef IO
+#endif
+}
+
 bool full_sweep(vf::Tier t) { return IS_F && t == vf::Tier::thorough && !VF_ASAN; }
 unsigned chunks(vf::Tier t) { return full_sweep(t) ? CHUNKS : 1; }
 unsigned random_cases_per_fn(vf::Tier t)
@@ -256,9 +353,9 @@ unsigned random_per_case(vf::Tier t)
 vf::Spec spec(vf::Tier t)
 {
     vf::Spec s;
-    s.n_enum     = (std::uint64_t)NF * NBLK * chunks(t);
+    s.n_enum     = (std::uint64_t)NF * NBLK * chunks(t) + 1; // + the extras case
     s.n_random   = (std::uint64_t)NF * random_cases_per_fn(t);
-    s.batch      = full_sweep(t) ? 16 : (VF_ASAN ? 32 : 64);
+    s.batch      = full_sweep(t) ? 16 : (VF_ASAN ? 1024 : 64); // forking an ASan process is expensive
     s.timeout_s  = 900;
     s.exhaustive = true;
     return s;
@@ -269,6 +366,10 @@ void run_case(vf::Case& c)
     Ctx x{};
     unsigned f;
     std::uint64_t first_hash;
+    if (c.enumerated && c.index == (std::uint64_t)NF * NBLK * chunks(c.tier)) {
+        extras();
+        return;
+    }
     if (c.enumerated) {
         unsigned const ch = chunks(c.tier);
         f                 = (unsigned)(c.index / ((std::uint64_t)NBLK * ch));
